@@ -465,10 +465,18 @@ async fn server_task(ctx: Ctx, mut svc: Service, mut cmd: mpsc::UnboundedReceive
             }
             Ev::Call(Some(call)) => {
                 ctx.probe("call-served");
-                let args: Result<Vec<u64>, _> = call.deserialize();
-                let (id, policy) = match args {
-                    Ok(v) if v.len() == 2 => (v[0], v[1]),
-                    _ => {
+                // Arguments: [id, policy] or [id, policy, <arbitrary value to echo>].
+                let args = call.deserialize_as_value();
+                let parsed = match &args {
+                    Ok(aldrin_core::Value::Vec(v)) if v.len() == 2 || v.len() == 3 => match (&v[0], &v[1]) {
+                        (aldrin_core::Value::U64(id), aldrin_core::Value::U64(policy)) => Some((*id, *policy, v.get(2).cloned())),
+                        _ => None,
+                    },
+                    _ => None,
+                };
+                let (id, policy, echo) = match parsed {
+                    Some(x) => x,
+                    None => {
                         ctx.log.borrow_mut().violate(
                             "call.args-corrupted",
                             &[Prop::C06, Prop::C12],
@@ -479,6 +487,10 @@ async fn server_task(ctx: Ctx, mut svc: Service, mut cmd: mpsc::UnboundedReceive
                     }
                 };
                 let r = match policy % 8 {
+                    0..=2 if echo.is_some() => {
+                        ctx.probe("call-echo-served");
+                        call.ok(aldrin_core::Value::Vec(vec![aldrin_core::Value::U64(call_result(id)), echo.unwrap()]))
+                    }
                     0..=2 => call.ok(call_result(id)),
                     3 => call.err(call_result(id)),
                     4 => call.abort(),
@@ -761,7 +773,24 @@ async fn run_op(ctx: &Ctx, op: AOp, info: &Rc<TaskInfo>) {
                 let policy = (op.b % 8) as u64;
                 let flag = Rc::new(Cell::new(false));
                 ctx.bb.borrow_mut().call_abort_flags.insert(id, (flag.clone(), ctx.minor));
-                let pending = p.call(op.c % 5, vec![id, policy], None);
+                // A quarter of the calls carry an arbitrary value tree that a successful reply echoes
+                // (payload interop between clients of different versions, C12).
+                let echo = if (op.b >> 3) % 4 == 0 {
+                    match crate::wire_ops::rich_value(id, op.b >> 5) {
+                        aldrin_core::Value::Vec(mut v) => v.pop(),
+                        _ => None,
+                    }
+                } else {
+                    None
+                };
+                let pending = match &echo {
+                    Some(tree) => p.call(
+                        op.c % 5,
+                        aldrin_core::Value::Vec(vec![aldrin_core::Value::U64(id), aldrin_core::Value::U64(policy), tree.clone()]),
+                        None,
+                    ),
+                    None => p.call(op.c % 5, vec![id, policy], None),
+                };
                 ctx.res.borrow_mut().proxies[i] = Some(p);
                 match op.d % 6 {
                     0 => {
@@ -775,14 +804,14 @@ async fn run_op(ctx: &Ctx, op: AOp, info: &Rc<TaskInfo>) {
                             flag.set(true);
                             ctx.probe("call-cancelled-mid-flight");
                         } else if let Some(Ok(reply)) = r {
-                            check_reply(ctx, id, policy, reply);
+                            check_reply(ctx, id, policy, reply, echo.as_ref());
                         }
                     }
                     _ => {
                         let must = policy % 8 != 7;
                         let r = blocked(info, "PendingReply", must, pending).await;
                         match r {
-                            Ok(reply) => check_reply(ctx, id, policy, reply),
+                            Ok(reply) => check_reply(ctx, id, policy, reply, echo.as_ref()),
                             Err(Error::CallAborted) | Err(Error::InvalidService) | Err(Error::InvalidFunction(_)) => {
                                 ctx.probe("call-refused-or-aborted");
                             }
@@ -821,9 +850,22 @@ async fn run_op(ctx: &Ctx, op: AOp, info: &Rc<TaskInfo>) {
     }
 }
 
-fn check_reply(ctx: &Ctx, id: u64, policy: u64, reply: aldrin::low_level::Reply) {
+fn check_reply(ctx: &Ctx, id: u64, policy: u64, reply: aldrin::low_level::Reply, echo: Option<&aldrin_core::Value>) {
     let mut log = ctx.log.borrow_mut();
     log.calls_checked += 1;
+    if let (Some(tree), true) = (echo, policy % 8 <= 2) {
+        let got = reply.deserialize_as_value();
+        let want = aldrin_core::Value::Vec(vec![aldrin_core::Value::U64(call_result(id)), tree.clone()]);
+        log.probe("call-echo-checked");
+        if !matches!(&got, Ok(Ok(v)) if *v == want) {
+            log.violate(
+                "call.wrong-value",
+                &[Prop::C06, Prop::C02, Prop::C12],
+                format!("client{}: call {id} (policy {policy}) returned {got:?}, expected Ok({want:?})", ctx.client),
+            );
+        }
+        return;
+    }
     let got: Result<Result<u64, u64>, _> = reply.deserialize::<u64, u64>();
     let want_ok = policy % 8 <= 2;
     let ok = match got {
